@@ -138,6 +138,10 @@ func (g *Gen) resolveCallee(c *ssa.CallCommon) calleeInfo {
 	}
 	sig, _ := c.Value.Type().Underlying().(*types.Signature)
 	ci := calleeInfo{kind: "dynamic", key: "?", sig: sig}
+	switch nt := c.Value.Type().(type) {
+	case *types.Named, *types.Alias:
+		ci.key = namedKey(nt) // e.g. fiber.ErrorHandler, fiber.Handler
+	}
 	if sig != nil {
 		ci.formals = sigFormals(sig, "")
 	}
@@ -164,9 +168,14 @@ func (g *Gen) resolveCallee(c *ssa.CallCommon) calleeInfo {
 					st := fa.X.Type().Underlying().(*types.Pointer).Elem()
 					stt, _ := structOf(st)
 					ci.kind = "field"
-					ci.key = namedKey(st) + "." + stt.Field(fa.Field).Name() + "[]"
+					ci.key = namedKey(st) + "." + stt.Field(fa.Field).Name() + "$elem"
 				}
 			}
+		}
+	} else if phi, ok := v.(*ssa.Phi); ok {
+		// a local assigned from one struct field on several paths: resolve to that field's contract
+		if k := phiFieldKey(phi); k != "" {
+			ci.kind, ci.key = "field", k
 		}
 	} else if p, ok := v.(*ssa.Parameter); ok {
 		ci.kind, ci.key = "var", g.pkgName()+".param "+p.Name()
@@ -177,6 +186,50 @@ func (g *Gen) resolveCallee(c *ssa.CallCommon) calleeInfo {
 		ci.key = namedKey(st) + "." + stt.Field(f.Field).Name()
 	}
 	return ci
+}
+
+// phiFieldKey: every non-nil leaf reachable through phis is a load of the same struct field.
+func phiFieldKey(phi *ssa.Phi) string {
+	seen := map[ssa.Value]bool{}
+	key := ""
+	okAll := true
+	var walk func(v ssa.Value)
+	walk = func(v ssa.Value) {
+		if seen[v] || !okAll {
+			return
+		}
+		seen[v] = true
+		switch x := v.(type) {
+		case *ssa.Phi:
+			for _, e := range x.Edges {
+				walk(e)
+			}
+		case *ssa.Const:
+			if x.Value != nil {
+				okAll = false
+			}
+		case *ssa.UnOp:
+			fa, ok := x.X.(*ssa.FieldAddr)
+			if !ok {
+				okAll = false
+				return
+			}
+			st := fa.X.Type().Underlying().(*types.Pointer).Elem()
+			stt, _ := structOf(st)
+			k := namedKey(st) + "." + stt.Field(fa.Field).Name()
+			if key != "" && key != k {
+				okAll = false
+			}
+			key = k
+		default:
+			okAll = false
+		}
+	}
+	walk(phi)
+	if !okAll {
+		return ""
+	}
+	return key
 }
 
 func (g *Gen) pkgName() string {
@@ -283,14 +336,17 @@ func (g *Gen) call(v *ssa.Call, c *ssa.CallCommon, ins ssa.Instruction) {
 			}
 			g.oblige("pre", shortKey(ci.key)+":"+rq.Label, t.S, g.pos(ins.Pos()), rq.Text, nil)
 		}
-		if (!con.Pure && (len(con.Modifies) > 0 || con.Fresh)) || con.Allocates {
+		g.preAlloc = g.sv("$alloc", "(Array Int Bool)")
+		if (!con.Pure && (len(con.Modifies) > 0)) || con.Fresh || con.Allocates {
 			g.bumpAlloc()
 		}
 		for _, m := range con.Modifies {
 			g.applyModifies(m, env, ci)
 		}
 		if con.CallsBack {
+			g.callbackInvariants(c, ins, true)
 			g.applyCallbacks(c)
+			g.callbackInvariants(c, ins, false)
 		}
 		if !con.Pure && len(con.Modifies) == 0 && !con.Assumed && !con.hasFrame() {
 			g.defaultEffects(ci, c, args)
@@ -407,9 +463,10 @@ func (g *Gen) resultAssumptions(rt Term, t types.Type, fresh bool) {
 	}
 	if fresh {
 		al := g.sv("$alloc", "(Array Int Bool)")
-		// fresh w.r.t. the pre-state allocation set is encoded by bumpAlloc's old version; keep simple: non-nil
-		g.assume(fmt.Sprintf("(not (= %s 0))", rt.S))
-		_ = al
+		g.assume(fmt.Sprintf("(and (not (= %s 0)) (select %s %s) (= (subtag %s) 0))", rt.S, al, rt.S, rt.S))
+		if g.preAlloc != "" {
+			g.assume(fmt.Sprintf("(not (select %s %s))", g.preAlloc, rt.S))
+		}
 		return
 	}
 	g.assumeAllocated(rt.S, t)
@@ -435,7 +492,7 @@ func (g *Gen) applyModifies(target string, env *Env, ci calleeInfo) {
 		return
 	}
 	if strings.HasPrefix(target, "heap(") {
-		n := strings.TrimSuffix(strings.TrimPrefix(target, "heap("), ")")
+		n := normHeapName(strings.TrimSuffix(strings.TrimPrefix(target, "heap("), ")"))
 		if s, ok := g.svSort[n]; ok {
 			g.havocSV(n, s)
 		} else if g.pass1 != nil {
@@ -520,8 +577,15 @@ func (g *Gen) applyModifies(target string, env *Env, ci calleeInfo) {
 				if stt.Field(i).Name() == n.Val {
 					hn, vs, ft := g.fieldHeap(st, i)
 					switch ft.Underlying().(type) {
-					case *types.Struct, *types.Array:
-						g.errs = append(g.errs, "modifies "+target+": by-value struct/array field; name its fields")
+					case *types.Struct:
+						if !g.structTransparent(ft) {
+							g.store(Addr{Heap: "O_" + typeKey(ft), Base: g.subref(st, i, x.S), Sort: "Int"}, g.newConst("otok", "Int"))
+							return
+						}
+						g.errs = append(g.errs, "modifies "+target+": by-value struct field; name its fields")
+						return
+					case *types.Array:
+						g.errs = append(g.errs, "modifies "+target+": by-value array field; use elems()")
 						return
 					}
 					nv := g.newConst("hv", vs)
@@ -726,6 +790,14 @@ func (g *Gen) atomicOp(ci calleeInfo, c *ssa.CallCommon, res ssa.Value) bool {
 	case strings.HasPrefix(name, "Store"):
 		a := g.addrOf(c.Args[0])
 		g.store(a, g.term(c.Args[1]).S)
+	case strings.HasPrefix(name, "Add") && len(c.Args) == 2:
+		a := g.addrOf(c.Args[0])
+		sum := fmt.Sprintf("(+ %s %s)", g.load(a), g.term(c.Args[1]).S)
+		if w, ok := uintWidth(res.Type()); ok {
+			sum = fmt.Sprintf("(mod %s %s)", sum, w)
+		}
+		t := g.define(res, sum)
+		g.store(a, t.S)
 	default:
 		return false
 	}
@@ -940,7 +1012,7 @@ func (g *Gen) frameCheck(x *ssa.Return) {
 			continue
 		}
 		if strings.HasPrefix(m, "heap(") {
-			whole[strings.TrimSuffix(strings.TrimPrefix(m, "heap("), ")")] = true
+			whole[normHeapName(strings.TrimSuffix(strings.TrimPrefix(m, "heap("), ")"))] = true
 			continue
 		}
 		n, err := parseExpr(m)
@@ -973,7 +1045,12 @@ func (g *Gen) frameCheck(x *ssa.Return) {
 			if stt, ok := structOf(st); ok {
 				for i := 0; i < stt.NumFields(); i++ {
 					if stt.Field(i).Name() == n.Val {
-						hn, _, _ := g.fieldHeap(st, i)
+						hn, _, ft := g.fieldHeap(st, i)
+						if _, isSt := structOf(ft); isSt && !g.structTransparent(ft) {
+							oh := "O_" + typeKey(ft)
+							single[oh] = append(single[oh], g.subref(st, i, xv.S))
+							continue
+						}
 						single[hn] = append(single[hn], xv.S)
 					}
 				}
@@ -1045,7 +1122,7 @@ func (g *Gen) frameCheck(x *ssa.Return) {
 			for _, r := range elems[n] {
 				ex = append(ex, fmt.Sprintf("(not (= r %s))", r))
 			}
-			goal = fmt.Sprintf("(forall ((r Int)) (=> %s (= (select %s r) (select %s r))))", and(append([]string{"(select $alloc!0 r)"}, ex...)...), fin, ini)
+			goal = fmt.Sprintf("(forall ((r Int)) (=> %s (= (select %s r) (select %s r))))", and(append([]string{"(select $alloc!0 (rootof r))"}, ex...)...), fin, ini)
 		}
 		g.oblige("frame", n, goal, g.pos(x.Pos()), "only the declared modifies targets change", nil)
 	}
